@@ -90,6 +90,25 @@ class NPProxy:
             return _elementwise(lambda e: e.conjugate() if hasattr(e, 'conjugate') else e, x)
         return _np.conj(x)
 
+    def _trig(self, name, x):
+        if not _is_symbolic(x):
+            return getattr(_np, name)(x)
+
+        def one(e):
+            if isinstance(e, (SymReal, Jet)):
+                return getattr(e, name)()
+            return getattr(SymReal(tm.const(e)), name)()
+        return _elementwise(one, x)
+
+    def cos(self, x):
+        return self._trig('cos', x)
+
+    def sin(self, x):
+        return self._trig('sin', x)
+
+    def arccos(self, x):
+        return self._trig('arccos', x)
+
     def sqrt(self, x):
         if isinstance(x, (SymReal, Jet)):
             return x.sqrt()
